@@ -51,6 +51,14 @@ Definition ser_ints_len (l : list Z) : Z :=
 Definition ser_ints_ok (l : list Z) : bool :=
   (Z.of_nat (length l) + 1 <=? 2048) && (ser_ints_len l <=? 65535).
 
+(** The capacity actually met on the compiled contract: while the old and the
+    new epoch list are both alive the VM's live-item limit (2048) is hit first
+    ("stack is too big"): the estimation that would make a list of more than
+    [cap_limit] epochs faults.  [cap_limit] is MEASURED by the harness on every
+    run and compared with this constant (cases_C20_cap.v). *)
+Definition cap_limit : Z := 1007.
+Definition cap_real (l : list Z) : bool := (Z.of_nat (length l) <=? cap_limit) && ser_ints_ok l.
+
 (** [estimationKey] *)
 Definition ekey (e : Z) (cid h20 : bytes) : bytes :=
   cnr_pfx ++ int_to_bytes e ++ cid ++ take postfix_size h20.
@@ -64,8 +72,8 @@ Section Deltas.
   (** Capacity of the platform for a node's epoch list (std.Serialize item
       limit, storage value limit, live-item limit of the VM stack while the
       old and the new list coexist).  The theorems hold for EVERY capacity
-      predicate; the correspondence check instantiates it with the
-      serialization bound [ser_ints_ok], which no recorded history reaches. *)
+      predicate; the correspondence check instantiates it with [cap_real],
+      whose constant is measured on the compiled contract on every run. *)
   Variable cap : list Z -> bool.
 
   (** The loop of [updateEstimations] (isUpdate = false) over the node's old
@@ -187,7 +195,7 @@ Definition eobserve (q : list Z * list bytes) (s : estate) (r : val) : val :=
           end ].
 
 Definition estep_obs (d : Z * Z) (q : list Z * list bytes) (s : estate) (o : eop) : estate * val :=
-  let '(s', r) := estep (fst d) (snd d) ser_ints_ok s o in (s', eobserve q s' r).
+  let '(s', r) := estep (fst d) (snd d) cap_real s o in (s', eobserve q s' r).
 
 (** case = ((CleanupDelta, TotalCleanupDelta) read by the harness from
     containerconst, (epochs, cids), trace) *)
